@@ -1257,3 +1257,46 @@ func c05Config386(c *Ctx, run func(*Ctx)) {
 	}
 	c.R.Cells += tmp.Cells
 }
+
+// c05ForC21 re-evaluates the worker-lifecycle rules (C05.R2 single worker / restart only while not closed, C05.R4
+// closed queue) and reports them under C21.R5: "once GracefulClose returns no goroutine started by the connection is
+// still running" needs exactly these — GracefulClose waits only on the busyCh it sampled, so a worker re-spawned, or
+// an operation accepted, after the queue was closed is a goroutine nobody waits for.
+func c05ForC21(c *Ctx, rule string) {
+	sub := core.NewReport("C05", c.R.Tier, c.R.Seed, c.R.VerifDir)
+	c2 := &Ctx{P: c.P, R: sub, Thorough: false, Load386: c.Load386}
+	x := &c05Ctx{c: c2}
+	x.mu = c2.mustField("C05.R1", "", "operations", "mu")
+	x.busyCh = c2.mustField("C05.R1", "", "operations", "busyCh")
+	x.ops = c2.mustField("C05.R1", "", "operations", "ops")
+	x.isClosed = c2.mustField("C05.R1", "", "operations", "isClosed")
+	x.tryEnqueue = c2.mustFunc("C05.R4", "", "operations.tryEnqueue")
+	x.pop = c2.mustFunc("C05.R3", "", "operations.pop")
+	x.start = c2.mustFunc("C05.R2", "", "operations.start")
+	x.done = c2.mustFunc("C05.R5", "", "operations.Done")
+	x.graceful = c2.mustFunc("C05.R4", "", "operations.GracefulClose")
+	if x.mu != nil && x.busyCh != nil && x.ops != nil && x.isClosed != nil && x.tryEnqueue != nil && x.pop != nil && x.start != nil && x.done != nil && x.graceful != nil {
+		x.info = c2.P.Pkg("").TypesInfo
+		x.bodies = c2.P.AllBodies(nil)
+		x.gd = core.NewGuard(c2.P, x.bodies)
+		x.r2()
+		x.r4()
+	}
+	for _, o := range sub.Obs {
+		if o.Rule != "C05.R2" && o.Rule != "C05.R4" && o.Status == core.StOK {
+			continue
+		}
+		key := o.Rule + "|" + o.Key
+		switch o.Status {
+		case core.StOK:
+			c.R.OK(rule, key, o.Pos, o.Detail)
+		case core.StFail:
+			c.R.Fail(rule, key, o.Pos, o.Detail)
+		case core.StUndecided:
+			c.R.Undecided(rule, key, o.Pos, o.Detail)
+		case core.StInfo:
+			c.R.Info(rule, key, o.Pos, o.Detail)
+		}
+	}
+	c.R.Cells += sub.Cells
+}
